@@ -56,6 +56,9 @@ type Accept struct {
 func AcceptTrue(i int) Accept   { return Accept{"true", i} }
 func AcceptNilErr(i int) Accept { return Accept{"nilerr", i} }
 func AcceptNonNil(i int) Accept { return Accept{"nonnil", i} }
+
+// AcceptFalse: the exits on which a boolean result is false (`_, found := firstOffender(xs)` with found false).
+func AcceptFalse(i int) Accept { return Accept{"false", i} }
 func AcceptAny() Accept         { return Accept{"any", 0} }
 
 // AcceptNegInt: the exits of a search helper on which nothing was found - an integer result that is not a
@@ -280,6 +283,11 @@ func acceptDemands(ret *ssa.Return, acc Accept) ([]demand, bool) {
 			return nil, false
 		}
 		return []demand{{retValue(ret, acc.Result), True}}, true
+	case "false":
+		if acc.Result >= retCount(ret) {
+			return nil, false
+		}
+		return []demand{{retValue(ret, acc.Result), False}}, true
 	case "nilerr":
 		if acc.Result >= retCount(ret) {
 			return nil, false
@@ -701,6 +709,12 @@ func (q *MustPass) calleeImplies(v ssa.Value, want Pred, depth int) bool {
 	switch want {
 	case True:
 		acc = AcceptTrue(idx)
+	case False:
+		// "the search found nothing": only for a second, boolean result of an unexported helper (`idx, found := f(x)`)
+		if idx == 0 || !isBoolType(v.Type()) {
+			return false
+		}
+		acc = AcceptFalse(idx)
 	case Nil:
 		// only for error-typed results
 		if !isErrorType(v.Type()) {
